@@ -68,9 +68,16 @@ def scenario_for(seed, index, tier):
         proto = common.pick_proto(rng, sup)
     ids = ids_for(proto)
     n = rng.choice([1, 3, 10, 30, 60, 120, 400])
+    # 'kick': like a real server, it closes its socket right after the
+    # disconnect packet; later client sends may then fail (send-error fault)
+    kick = rng.random() < 0.25
+    if kick:
+        n = rng.choice([1, 3, 10, 30, 40])
     hist = gen_history(rng, ids, n)
+    if kick:
+        hist = [it for it in hist if it[0] != 'pause' or it[1] < 1000000]
     compress = rng.choice([None, None, 0, 64, 256])
-    user_packets = rng.choice([0, 0, 0, 5, 320, 650])
+    user_packets = 0 if kick else rng.choice([0, 0, 0, 5, 320, 650])
     login = ([['compress', compress]] if compress is not None else []) + \
         [['success']]
     answers = sum(1 for it in hist if it[0] in ('ka', 'pos'))
@@ -78,14 +85,16 @@ def scenario_for(seed, index, tier):
     if user_packets:
         play.append(['expect', answers + user_packets])
     play.append(['disconnect', '{"text":"end of history"}'])
+    if kick:
+        play.append(['close'])
     v = rng.random()
-    net = {'latency_us': rng.choice([50, 200, 3000])}
+    net = {'latency_us': rng.choice([50, 200, 3000]), 'send_error': kick}
     if v < 0.4:
         net.update(segment=True, short_read=True,
                    max_seg=rng.choice([3, 64, 1000]))
     return {
         'proto': proto, 'compress': compress, 'history': hist,
-        'user_packets': user_packets,
+        'user_packets': user_packets, 'kick': kick,
         'server': {'conns': [{'login': login, 'play': play}]},
         'net': net,
         'sched': {'granularity': 'io' if rng.random() < 0.7 else 'line',
@@ -97,6 +106,7 @@ def scenario_for(seed, index, tier):
 def policy(rng, scenario):
     return Policy(p_sched=rng.choice([0, 0.01, 0.1]),
                   p_event=rng.choice([0, 0.05, 0.3]),
+                  p_io=rng.choice([0.2, 0.8]),
                   p_short=rng.choice([0.05, 0.5]),
                   p_seg=rng.choice([0.05, 0.5]), name='c11')
 
@@ -174,8 +184,14 @@ def check(scenario, w, st, res, ids):
                   str(st['errs'][0])[:200]))
         return
     ob()
-    if app.errors:
-        V.append(('C11/torn-client-stream', app.errors[:3]))
+    errors = list(app.errors)
+    if scenario.get('kick') and sim.stats.get('fault.send-error'):
+        # a frame whose second send() failed on the dead connection is cut
+        # short by the fault itself, not by the client
+        errors = [e for e in errors
+                  if not e.startswith('client stream ended inside a frame')]
+    if errors:
+        V.append(('C11/torn-client-stream', errors[:3]))
         return
     # listener log: every packet delivered in order; unknown ids generic
     sent = [it for it in hist if it[0] != 'pause']
@@ -202,8 +218,14 @@ def check(scenario, w, st, res, ids):
     want_ka = [wire.i64(it[1]) if later[339] else wire.varint(it[1])
                for it in hist if it[0] == 'ka']
     got_ka = [b for _s, pid, b in frames if pid == ka_id]
+    kick = scenario.get('kick')
     ob(len(want_ka) + 1)
-    if got_ka != want_ka:
+    if kick and got_ka == want_ka[:len(got_ka)]:
+        # answers written after the server had closed may be lost, but the
+        # ones that arrived are the right ones, in order, once each
+        res.probes['kick-answers-cut-short'] = \
+            int(len(got_ka) < len(want_ka))
+    elif got_ka != want_ka:
         if len(got_ka) < len(want_ka):
             kind = 'missing'
         elif len(got_ka) > len(want_ka):
@@ -225,7 +247,7 @@ def check(scenario, w, st, res, ids):
         got = [b for _s, pid, b in frames
                if pid == ids['sb.play.teleport_confirm']]
         ob(len(want) + 1)
-        if got != want:
+        if got != want and not (kick and got == want[:len(got)]):
             V.append(('C11/teleport-confirm-mismatch',
                       {'n_got': len(got), 'n_want': len(want),
                        'got': [g.hex() for g in got[:3]],
@@ -235,7 +257,7 @@ def check(scenario, w, st, res, ids):
                 wire.f32(it[4]) + wire.f32(it[5]) + b'\x01' for it in pos]
         got = [b for _s, pid, b in frames if pid == ids['sb.play.position']]
         ob(len(want) + 1)
-        if got != want:
+        if got != want and not (kick and got == want[:len(got)]):
             V.append(('C11/position-echo-mismatch',
                       {'n_got': len(got), 'n_want': len(want),
                        'got': [g.hex() for g in got[:2]],
@@ -285,6 +307,8 @@ def shrink_scenario(sc):
         if c['user_packets']:
             play.append(['expect', answers + c['user_packets']])
         play.append(['disconnect', '{"text":"end of history"}'])
+        if c.get('kick'):
+            play.append(['close'])
         c['server']['conns'][0]['play'] = play
         return c
     n = len(hist)
@@ -323,7 +347,7 @@ def evidence(tier, seed, m, d):
              'position-and-look, unknown-id frames, known-but-unhandled '
              'packets, pauses) ending in a play disconnect, optional 5/320/'
              '650 user-queued packets, compression on/off, optional random '
-             'segmentation; protocol sampled with layout boundaries '
+             'segmentation; in 25% of the cases (history <= 40) the server closes its socket right after the disconnect packet and later client sends may fail; protocol sampled with layout boundaries '
              'over-weighted (thorough: every supported version x4 first); '
              'evaluations = oracle obligations (one per expected delivery '
              'and answer); non-trivial = history of >= 3 packets; distinct = '
